@@ -28,6 +28,10 @@ C04 filtmp n 0|1 Dre Dim xre xim -> ok out=…: the pipeline with an n×n matrix
                       n²·My·Mx ≤ 256; output as `filtp`, index t·ny·nx + pixel
 C04 prop 0|1 xre xim -> ok out=…: the Fresnel propagator set up (transfer-function branch, My·Mx ≤ 64) applied to x, exactly, on
                       formal phase sums (`propOpP`: `filterP` with the transfer function `fresnelTFP` = mean of the `fresnelSubTurns` phases)
+C04 dtypes [d…] [s…] -> ok t a d e s;…: dtype / tensor-shape bookkeeping of one `FourierFilter` object over a sequence of calls
+                      (`traceCalls`): call i has dtype d_i (0 = complex64, 1 = complex128) and tensor shape code s_i (0 = scalar,
+                      2 = (2,), 3 = (3,), 22 = (2,2), …); per call: transfer function recomputed (t), scratch array reallocated (a),
+                      dtype of the cached transfer function (d), dtype (e) and shape code (s) of the scratch array afterwards; stateless
 C04 ir jy         -> ok amp=… turns=[…] (fresnel) | ok r2=[…] (angular): impulse response on row jy of the
                       enlarged grid, for jx = 0..Mx-1 and all s² dithers (x dither fastest)
 ```
@@ -78,8 +82,29 @@ def parseSetter? (name val : String) : Option Setter :=
   | "wavelength" => (parseRat? val).bind fun l => if l ≤ 0 then none else some (.wavelength l)
   | _ => none
 
+def shapeOfCode (n : Nat) : List Nat := if n = 0 then [] else if n < 10 then [n] else [n / 10, n % 10]
+def codeOfShape : List Nat → Nat
+  | [] => 0
+  | [a] => a
+  | a :: b :: _ => a * 10 + b
+def showDt : Dt → String
+  | .c64 => "0"
+  | .c128 => "1"
+
 def step (st : St) : List String → St × String
   | ["reset"] => ({}, "ok")
+  | ["dtypes", ds, ss] =>
+    match parseNatList? ds, parseNatList? ss with
+    | some ds, some ss =>
+      if ds.length ≠ ss.length || ds.any (· > 1) || ss.any (fun c => c ≥ 100 || c % 10 = 0 && c ≠ 0) then (st, "err value") else
+      let calls := (ds.zip ss).map fun (d, c) => ({ dt := if d = 0 then .c64 else .c128, ts := shapeOfCode c } : Call)
+      let tr := traceCalls {} calls
+      let showS := fun (x : Bool × Bool × FState) =>
+        let tfd := match x.2.2.tf with | some d => showDt d | none => "-"
+        let ad := match x.2.2.arr with | some (d, ts) => s!"{showDt d} {codeOfShape ts}" | none => "- -"
+        s!"{showBool x.1} {showBool x.2.1} {tfd} {ad}"
+      (st, "ok " ++ ";".intercalate (tr.map showS))
+    | _, _ => (st, "bad-op")
   | ["setup", kind, nx, ny, dx, dy, lam, z, n, q, s] =>
     match parseKind? kind, parseNat? nx, parseNat? ny, parseRat? dx, parseRat? dy, parseRat? lam,
           parseRat? z, parseRat? n, parseRat2? q, parseNat2? s with
